@@ -239,6 +239,24 @@ def impl_hsource(a):
 
 
 
+NATIVE_KINDS = ["str", "bytes", "file", "path", "missing_path", "et_tree", "et_element"]
+
+
+def gen_native_parse(rng, tier):
+    wk = D.well_known()
+    for d in gen_dtrees(rng, tier, n_cases(tier, 25, 120), 3):
+        if rng.random() < 0.4:
+            random_stores(rng, d)
+        data = D.print_dtree(d).encode()
+        for kind in NATIVE_KINDS:
+            yield {"doc": D.dtree_strip(d), "well_known": wk, "kind": kind, "bytes": list(data),
+                   "path": "/tmp/c08-doc.xml", "_print": d}
+
+
+def impl_native_parse(a):
+    return D.real_native_parse(a["_print"], a["kind"], "/nonexistent//tmp/c08-doc.xml")
+
+
 def gen_inscope(rng, tier):
     for d in gen_dtrees(rng, tier, n_cases(tier, 50, 600), 3):
         yield {"doc": D.dtree_strip(d), "_print": d}
@@ -553,6 +571,10 @@ CORRS = [
          describe="TreeSerializer(config).render(obj) vs the model of serializers/tree.py + LxmlTreeBuilder.build"),
     Corr("c08.lxml_writer", gen_lxml_writer, impl_lxml_writer, compare=cmp_lxml_writer,
          describe="XmlSerializer(LxmlEventWriter).render: declaration text and printed tree vs model"),
+    Corr("c08.native_parse", gen_native_parse, impl_native_parse, classify=lambda a, o: a["kind"],
+         describe="XmlParser(XmlEventHandler) with recording start/end/register_namespace: from_string / from_bytes / from_path / "
+                  "parse(file object | ElementTree | Element) and a path that cannot be opened vs model nativeParse over the World "
+                  "of the document (toHSource, nativeContext, iterwalk, pump)"),
     Corr("c08.hsource", gen_hsource, impl_hsource,
          describe="PushParser.from_string/from_bytes/from_path/parse: the source handler.parse receives vs model toHSource"),
     Corr("c08.indent", gen_indent, impl_indent, canon=drop_ns, describe="lxml.etree.indent vs the modelled tree transformation"),
